@@ -95,6 +95,20 @@ M = [
  # ---- C40
  ('c40-imports-unsorted', 'compiler/protogen/protogen.go',
   '\tsort.Slice(importPaths, func(i, j int) bool {', '\tsort.Slice(importPaths[:0], func(i, j int) bool {'),
+ # ---- C28 / C11 / C12
+ ('c11-presence-word-index', 'internal/impl/presence.go',
+  '\toffset := uintptr(num) / (siz * bitsPerByte) * siz\n', '\toffset := uintptr(num) / (siz * bitsPerByte * 2) * siz\n'),
+ ('c12-dynamic-set-keeps-others', 'types/dynamicpb/dynamic.go',
+  '\tm.clearOtherOneofFields(fd)\n\tm.known[fd.Number()] = v\n', '\tif fd.Message() == nil {\n\t\tm.clearOtherOneofFields(fd)\n\t}\n\tm.known[fd.Number()] = v\n'),
+ ('c28-mutable-detached', 'internal/impl/message_opaque.go',
+  '\t\t\t\t\tmp = pointerOfValue(conv.GoValueOf(conv.New()))\n\t\t\t\t\tfp.AtomicSetPointer(mp)\n\t\t\t\t\tmi.setPresent(p, index)\n', '\t\t\t\t\tmp = pointerOfValue(conv.GoValueOf(conv.New()))\n\t\t\t\t\tmi.setPresent(p, index)\n'),
+ ('c28-get-allocates', 'internal/impl/message_opaque.go',
+  '\t\t\tif p.IsNil() || !mi.present(p, index) {\n\t\t\t\treturn conv.Zero()\n\t\t\t}\n\t\t\tfp := p.Apply(fieldOffset)\n\t\t\tmp := fp.AtomicGetPointer()\n\t\t\tif mp.IsNil() {\n\t\t\t\t// Lazily unmarshal this field.',
+  '\t\t\tif p.IsNil() {\n\t\t\t\treturn conv.Zero()\n\t\t\t}\n\t\t\tif !mi.present(p, index) {\n\t\t\t\tnp := pointerOfValue(conv.GoValueOf(conv.New()))\n\t\t\t\tp.Apply(fieldOffset).AtomicSetPointer(np)\n\t\t\t\treturn conv.PBValueOf(np.AsValueOf(elemType))\n\t\t\t}\n\t\t\tfp := p.Apply(fieldOffset)\n\t\t\tmp := fp.AtomicGetPointer()\n\t\t\tif mp.IsNil() {\n\t\t\t\t// Lazily unmarshal this field.'),
+ ('c11-clear-keeps-presence', 'internal/impl/message_opaque.go',
+  '\t\tclear: func(p pointer) {\n\t\t\tmi.clearPresent(p, index)\n\t\t\tp.Apply(fieldOffset).AtomicSetNilPointer()\n\t\t},', '\t\tclear: func(p pointer) {\n\t\t\tp.Apply(fieldOffset).AtomicSetNilPointer()\n\t\t},'),
+ ('c12-json-seen-oneofs-off', 'encoding/protojson/decode.go',
+  '\t\t\tif seenOneofs.Has(idx) {', '\t\t\tif seenOneofs.Has(idx) && fd.Message() != nil {'),
  # ---- C27
  ('c27-eof-inside-size', 'encoding/protodelim/protodelim.go',
   'if err == io.EOF && i != 0 {', 'if err == io.EOF && i < 0 {'),
